@@ -679,6 +679,14 @@ class RunLength2dArray(IndexableMixin, np.lib.mixins.NDArrayOperatorsMixin):
         else:
             values = self._values.ravel()
         assert len(values) == len(positions), (values, positions)
+        if np.issubdtype(values.dtype, np.inexact):
+            # differences and running sums are only exact for integers: float columns are summed row by row, as numpy sums the dense rows
+            bounds = np.unique(np.append(positions, L))
+            total = np.zeros(len(bounds)-1, dtype=values.dtype)
+            row_values = self._values if self._row_len is not None else c
+            for row_positions, row_vals in zip(self._indices, row_values):
+                total += np.asarray(row_vals)[np.searchsorted(np.asarray(row_positions), bounds[:-1], side="right")-1]
+            return RunLengthArray(*RunLengthArray.remove_empty_intervals(bounds, total))
         if np.issubdtype(values.dtype, np.integer) or values.dtype == bool:
             if np.issubdtype(values.dtype, np.signedinteger) or values.dtype == bool:
                 values = values.astype(int)
